@@ -17,6 +17,8 @@ RULE = ("a pool of 150..400 (class, operation, arguments) items over the five fo
         "created mid-sequence; operations parse (good, failing, strict and non-strict), parse+format, gen_format, regex, comparisons+hash, valid, arithmetic. Reference outcome of every item: a "
         "fresh interpreter that evaluates this item alone. Then: the whole pool in 6 (quick) / 40 (thorough) random orders with repetitions in one process; the same pool from 2, 4, 8, 16 "
         "threads with sys.setswitchinterval(1e-6), every thread running its own shuffled copy against shared classes; instance snapshots (slots) around every non-constructing operation. "
+        "the pool includes to_const (formatters, groups with a subset, constants of constants with equal texts from different classes) and decimal-context-sensitive Storage values; "
+        "a fresh-class race: 40 (quick) / 200 (thorough) constant classes created a moment ago whose FIRST calls are made by 4..16 threads at once, judged during and after the race. "
         "distinct = distinct pool items")
 TRUSTED = ["the outcome text of an item (value / string / exception type) captures what a caller can observe"]
 ASSUMPTIONS = ["Datetime defaults that read the wall clock are excluded (every Datetime item states its year)"]
@@ -82,6 +84,10 @@ def build_pool(r, tier):
     for k, lst in texts.items():
         if k not in ("envconst", "aserial", "adatetime"):
             pool.append({"cls": B(k), "op": "toconst", "args": [lst[0][0], lst[0][1], None]})
+    # equal texts frozen from different classes (a memo keyed by the object would confuse them: constants compare by text)
+    for k, text, fmt in (("datetime", "2023", "%Y"), ("serial", "2023", "%n"), ("storage", "2023", "%b"), ("version", "2023", "%m"), ("naming", "2023", "%f"),
+                         ("datetime", "12", "%d"), ("serial", "12", "%n"), ("datetime", "12", "%m"), ("datetime", "12", "%H")):
+        pool.append({"cls": B(k), "op": "toconst_chain", "args": [text, fmt]})
     # interpreter-wide settings (the decimal context, …) are shared state as well: values that are sensitive to them,
     # next to the calls that do arithmetic on decimals
     for text, fmt in (("123456789012345678901234567890B", "%B"), ("123456789012345678901234567890", "%b"), ("987654321098765432109876543210KB", "%K"),
@@ -255,7 +261,58 @@ def sweep(tier: str) -> Sweep:
     finally:
         sys.setswitchinterval(old)
     sweep_instances(sw, r, pool)
+    sweep_fresh_class_race(sw, r, tier)
     return sw
+
+
+def sweep_fresh_class_race(sw, r, tier):
+    """the FIRST calls on a class created a moment ago, made by several threads at once (lazy initialisation of a class's
+    tables is shared state like any other): every call gives what it gives single-threaded, during and after the race"""
+    import string
+    from fmtutil import Naming, make_const
+    directives = [f"%{p}{l}" for p in ("", "-") for l in string.ascii_letters]
+    old = sys.getswitchinterval()
+    sys.setswitchinterval(1e-6)
+    try:
+        for rnd in range(40 if tier == "quick" else 200):
+            nthreads = r.choice([4, 8, 16])
+            if rnd % 2 == 0:
+                mapping = {d: f"text.{rnd}.{i}" for i, d in enumerate(directives)}
+                C = make_const(name=f"Race{rnd}Const", formatter=dict(mapping))
+            else:
+                inst = Naming.from_value(["data", "engineer", f"x{rnd}"])
+                mapping = {d: v for d, v in inst.values().items() if isinstance(v, str) and v}
+                C = inst.to_const()
+            ds = list(mapping)
+            picks = [ds[-1 - (i % len(ds))] for i in range(nthreads)]
+            start = threading.Barrier(nthreads)
+            got = [None] * nthreads
+
+            def work(i):
+                d = picks[i]
+                start.wait()
+                try:
+                    got[i] = "ok:" + C.parse(mapping[d], d).format(d)
+                except BaseException as e:  # noqa: BLE001
+                    got[i] = "err:" + type(e).__name__
+
+            ths = [threading.Thread(target=work, args=(i,)) for i in range(nthreads)]
+            for t in ths:
+                t.start()
+            for t in ths:
+                t.join()
+            for i, d in enumerate(picks):
+                sw.branches["fresh-class-race"] += 1
+                sw.note(["race", rnd, d], "fresh-class-race")
+                case = {"clause": "threads", "item": {"cls": C.__name__, "op": "first parse+format on a fresh constant class", "args": [mapping[d], d]}, "threads": nthreads}
+                sw.check(got[i] == "ok:" + mapping[d], "the outcome of a first call on a fresh class depends on the thread schedule", case, "ok:" + mapping[d], got[i])
+                try:
+                    after = "ok:" + C.parse(mapping[d], d).format(d)
+                except BaseException as e:  # noqa: BLE001
+                    after = "err:" + type(e).__name__
+                sw.check(after == "ok:" + mapping[d], "a call after the threads are done still differs (a table was left half built)", {**case, "clause": "history"}, "ok:" + mapping[d], after)
+    finally:
+        sys.setswitchinterval(old)
 
 
 def run(tier: str, drv_ok: bool) -> dict:
